@@ -30,6 +30,11 @@ func zzCells(name string, nrows, ncols, cellLen int) [][]string {
 			if zzverif.Param("emptyCells", 0) == 1 && zzverif.Bool("emptyCell") {
 				l = 0 // any cell may be empty (the explorer decides which)
 			}
+			if zzverif.Param("bigRow", 0) == i+1 && j == ncols-1 {
+				// one row outweighs the others together: a run size exists at which this row
+				// alone is spilled and the remaining rows stay in memory as an unsorted tail
+				l = 12
+			}
 			in[i][j] = zzverif.String(name, l)
 		}
 	}
